@@ -121,21 +121,32 @@ class Run:
     # ---- MC + GEN ------------------------------------------------------------------
     def run_mc(self, job):
         tier = self.tier
-        name = "MC_%s_%s" % (job["model"], tier)
+        module = job.get("module", "MC")
+        name = "%s_%s_%s" % (module, job["model"], tier)
         cfg = os.path.join(SPEC, ".gen_%s_%d.cfg" % (name, os.getpid()))
-        inv = job.get("invariants", ["Holds", "WellFormedInv", "DirtyInv", "SelfInv", "Emit"])
+        default_inv = {"MC": ["Holds", "WellFormedInv", "DirtyInv", "SelfInv", "Emit"]}
+        inv = job.get("invariants", default_inv.get(module, ["Emit"]))
         with open(cfg, "w") as f:
-            f.write("SPECIFICATION Spec\nCONSTANTS\n  Model = \"%s\"\n  Geoms <- %s\n  EmitVectors = %s\n  TextLen = %d\n" %
-                    (job["model"], job["geoms"][tier], "TRUE" if job.get("emit", True) else "FALSE",
-                     job.get("textlen", {}).get(tier, 2)))
+            f.write("SPECIFICATION Spec\nCONSTANTS\n")
+            if module == "MC":
+                f.write("  Model = \"%s\"\n  Geoms <- %s\n  TextLen = %d\n" %
+                        (job["model"], job["geoms"][tier], job.get("textlen", {}).get(tier, 2)))
+            f.write("  EmitVectors = %s\n" % ("TRUE" if job.get("emit", True) else "FALSE"))
+            for k, v in job.get("constants", {}).items():
+                val = v[tier] if isinstance(v, dict) else v
+                f.write("  %s = %s\n" % (k, val))
+            if job.get("view"):
+                f.write("VIEW %s\n" % job["view"])
+            if job.get("constraint"):
+                f.write("CONSTRAINT %s\n" % job["constraint"])
             f.write("INVARIANTS " + " ".join(inv) + "\nCHECK_DEADLOCK FALSE\n")
-        md = os.path.join(self.wd, "md-" + name)
+        md = os.path.join(self.wd, "md-" + name + "-%d" % len(self.mc_runs))
         cmd = tlc_cmd(["-workers", str(job.get("workers", 8)), "-metadir", md, "-cleanup", "-noGenerateSpecTE",
-                       "-config", os.path.basename(cfg), job.get("module", "MC") + ".tla"], job.get("xmx", "8g"))
+                       "-config", os.path.basename(cfg), module + ".tla"], job.get("xmx", "8g"))
         ports = job["ports"][tier]
         t0 = time.time()
         nvec = 0
-        tail = collections.deque(maxlen=60)
+        tail = collections.deque(maxlen=80)
         try:
             p = subprocess.Popen(cmd, cwd=SPEC, env=tlc_env(deque=False), stdout=subprocess.PIPE,
                                  stderr=subprocess.STDOUT, text=True)
@@ -143,7 +154,7 @@ class Run:
                 if line.startswith('<<"VEC"'):
                     m = PRINT_RE.match(line.rstrip("\n"))
                     vec = json.loads(unq(m.group(2)))
-                    self.add_vector(job, vec, nvec, ports)
+                    getattr(self, "add_vector_" + job.get("kind", "screen"))(job, vec, nvec, ports)
                     nvec += 1
                 else:
                     tail.append(line)
@@ -160,11 +171,69 @@ class Run:
         gen, dist = int(m.group(1)), int(m.group(2))
         self.states += dist
         self.transitions += gen
-        self.mc_runs.append({"model": job["model"], "geoms": job["geoms"][tier], "states_distinct": dist,
-                             "states_generated": gen, "vectors": nvec, "invariants": inv,
+        self.mc_runs.append({"module": module, "model": job["model"], "bounds": job.get("geoms", {}).get(tier) or {k: (v[tier] if isinstance(v, dict) else v) for k, v in job.get("constants", {}).items()},
+                             "states_distinct": dist, "states_generated": gen, "vectors": nvec, "invariants": inv,
                              "wall_s": round(time.time() - t0, 1)})
 
-    def add_vector(self, job, vec, idx, ports):
+    def put(self, h, kind):
+        self.hf[self.nhist % self.n].write(json.dumps(h, separators=(",", ":")) + "\n")
+        self.nhist += 1
+        if len([x for x in self.samples if x["kind"] == kind]) < 2:
+            self.samples.append({"kind": kind, "history": h})
+
+    def add_vector_rec(self, job, vec, idx, ports):
+        """a recogniser string: fed whole / one character at a time (chars), and as bytes"""
+        s, utf8 = vec["s"], vec["utf8"]
+        base = {"sid": "", "cmp": "", "C": 4, "L": 3, "scr": False, "utf8": utf8}
+        for port, every in ports.items():
+            if idx % every != 0:
+                continue
+            if port == "chars":
+                evs = [{"op": "feed", "p": [], "s": s, "pr": False, "port": "chars"}]
+            elif port == "chars1":
+                evs = [{"op": "feed", "p": [], "s": [c], "pr": False, "port": "chars"} for c in s]
+            else:
+                if utf8:
+                    b = list("".join(chr(c) for c in s).encode("utf-8"))
+                elif all(c < 256 for c in s):
+                    b = s
+                else:
+                    continue
+                if port == "bytes":
+                    evs = [{"op": "feedb", "p": [], "s": [], "pr": False, "port": "bytes", "b": b}]
+                else:
+                    evs = [{"op": "feedb", "p": [], "s": [], "pr": False, "port": "bytes", "b": [x]} for x in b]
+            self.put(dict(base, id="%s-%s-v%d-%s" % (job["model"], "u" if utf8 else "e", idx, port), evs=evs), "vector-" + job["model"])
+
+    def add_vector_bytes(self, job, vec, idx, ports):
+        """a byte string with cut placements (MCUtf8): chunks fed one feed() call each"""
+        base = {"sid": "", "cmp": "", "C": 4, "L": 3, "scr": False, "utf8": True}
+        evs = []
+        for i, ch in enumerate(vec["chunks"]):
+            if vec.get("sw") and i == vec["sw"] - 1:
+                evs.append({"op": "utf8", "p": [0], "s": [], "pr": False, "port": "api"})
+            evs.append({"op": "feedb", "p": [], "s": [], "pr": False, "port": "bytes", "b": ch})
+        self.put(dict(base, id="%s-v%d" % (job["model"], idx), evs=evs), "vector-" + job["model"])
+
+    def add_vector_stream(self, job, vec, idx, ports):
+        """a token stream with every cut placement (MCStream): same sid, compared under C02"""
+        for port, every in ports.items():
+            if idx % every != 0:
+                continue
+            for k, chunks in enumerate(vec["cuts"]):
+                if port == "bytes":
+                    evs = [{"op": "feedb", "p": [], "s": [], "pr": False, "port": "bytes", "b": c} for c in chunks["b"]]
+                else:
+                    evs = [{"op": "feed", "p": [], "s": c, "pr": False, "port": "chars"} for c in chunks["s"]]
+                h = {"id": "%s-v%d-%s-%d" % (job["model"], idx, port, k), "sid": "%s-v%d-%s" % (job["model"], idx, port), "cmp": "C02",
+                     "C": vec["C"], "L": vec["L"], "scr": True, "utf8": vec.get("utf8", True), "evs": evs}
+                # all cut placements of one stream go to the same shard, contiguously
+                self.hf[idx % self.n].write(json.dumps(h, separators=(",", ":")) + "\n")
+                self.nhist += 1
+            if len([x for x in self.samples if x["kind"] == "vector-stream"]) < 2:
+                self.samples.append({"kind": "vector-stream", "history": h})
+
+    def add_vector_screen(self, job, vec, idx, ports):
         for port, every in ports.items():
             if idx % every != 0:
                 continue
@@ -176,10 +245,7 @@ class Run:
                 h = {"id": "%s-v%d-%s%s" % (job["model"], idx, port, "-d" if disp else ""), "sid": "", "cmp": "",
                      "C": vec["C"], "L": vec["L"], "scr": True, "utf8": True, "dispsetup": disp,
                      "setup": vec["setup"], "evs": [ev] + ([{"op": "display", "p": [], "s": [], "pr": False, "port": "api"}] if job.get("display_after") else [])}
-                self.hf[self.nhist % self.n].write(json.dumps(h, separators=(",", ":")) + "\n")
-                self.nhist += 1
-                if len(self.samples) < 3:
-                    self.samples.append({"kind": "vector", "history": h})
+                self.put(h, "vector-" + job["model"])
 
     def run_gen(self, job):
         count = job["count"][self.tier]
@@ -271,7 +337,7 @@ class Run:
     # ---- main ------------------------------------------------------------------------
     def execute(self):
         for job in self.plan.get("mc", []):
-            if self.tier in job["geoms"]:
+            if job.get("tiers", ("quick", "thorough")).__contains__(self.tier):
                 self.run_mc(job)
         for job in self.plan.get("gen", []):
             if job["count"].get(self.tier, 0) > 0:
@@ -299,11 +365,17 @@ class Run:
                     hid = json.loads(l)["id"]
                 if i >= line:
                     break
-        for l in open(self.hist[shard]):
-            h = json.loads(l)
+        found = None
+        hs = [json.loads(l) for l in open(self.hist[shard])]
+        for h in hs:
             if h["id"] == hid:
-                return h
-        return {"id": hid}
+                found = h
+        if found is None:
+            return {"id": hid}
+        if found.get("sid"):
+            # a comparison group (C02 / C10): the replay needs every run of the same stream
+            found = dict(found, group=[h for h in hs if h.get("sid") == found["sid"]])
+        return found
 
     def report(self, rep):
         known = load_known()
@@ -376,7 +448,8 @@ def do_replay(prop, path, wd):
     rp = json.load(open(path))
     h = rp["history"]
     hist, trace = os.path.join(wd, "h.ndjson"), os.path.join(wd, "t.ndjson")
-    open(hist, "w").write(json.dumps(h) + "\n")
+    group = h.pop("group", None) or [h]
+    open(hist, "w").write("".join(json.dumps(x) + "\n" for x in group))
     try:
         r = harness(["replay", hist, trace], timeout=300)
         rc = r.returncode
